@@ -427,7 +427,7 @@ func randomNode(rng *rand.Rand, page uint64) (*storage.VerifCodecNode, []string,
 			shape = append(shape, "leaf-full")
 		}
 		// values replaced through updateCell (ascending nodes only: updateCell
-		// addresses the slot by position), before or after the split
+		// addresses the slot by position), after the split if there was one
 		if asc && v.Count() >= 1 && rng.Intn(2) == 0 {
 			for u := 1 + rng.Intn(3); u > 0; u-- {
 				c, err := v.Content()
